@@ -3,6 +3,8 @@
    Only statements here; proofs live in Proofs/C01_Core.v, C01_Sound.v, C01_Thm.v. *)
 From Coq Require Import ZArith List Bool.
 From Elk Require Import Model.C01_Core Proofs.C01_Core Proofs.C01_Sound Proofs.C01_Thm.
+From Elk Require Model.C15_Gen.
+From Elk Require Import Model.C01_Proto Proofs.C01_Proto.
 Import ListNotations.
 
 (* Soundness of the checker's rules on the core for the typed-dispatch interpreter: a program
@@ -61,3 +63,48 @@ Example C01_soundness_nonvacuous :
 Proof. vm_compute. repeat split; eauto. Qed.
 Example C01_unlock_nonvacuous : tracked e_new /\ elk_run true e_new [MUnlock; MLock; MUnlock; MUnlock; MRUnlock] <> SFatal.
 Proof. split; [split; reflexivity | vm_compute; discriminate]. Qed.
+
+(* Protocol sequences on stateful std objects (Model/C01_Proto.v: generators over the body language and
+   machine of Model/C15_Gen.v, collection / endless-range iterators, buffered channels, settled promises,
+   Sync::Once).  Every operation is dispatched for the static kind of its receiver slot and every element
+   it delivers is consumed by an Int-typed instruction.  For every history the checker accepts
+   (each operation's slot exists and its kind has the method) the typed-dispatch machine never meets a
+   slot of another kind, for all fuel: operations keep the kind of their receiver (next/reset/for-in with
+   break on generators and iterators, push/pop/close on channels, await, Once#call).  This is a statement
+   about the MODEL of the objects; the compiler (where a wrong entry point for `reset` lives) is outside it
+   and is reached by the c01.proto stream only. *)
+Theorem C01_proto_sound : forall ops h,
+  wt_ops (map kind_of h) ops = true ->
+  forall fuel acc out, run_ops fuel h ops acc out <> PCrash.
+Proof. exact proto_sound. Qed.
+Print Assumptions C01_proto_sound.
+
+(* `reset` on a generator / iterator = start over: the rest of the history is the history of a fresh object
+   (the reference the c01.proto stream compares the implementation with). *)
+Theorem C01_proto_reset_restarts : forall fuel h i o ops acc out,
+  nth_error h i = Some o -> (kind_of o = KGen \/ kind_of o = KIter) ->
+  run_ops fuel h (PReset i :: ops) acc out = run_ops fuel (set_slot h i (fresh o)) ops acc ([EOk] :: out).
+Proof. exact proto_reset_restarts. Qed.
+Print Assumptions C01_proto_reset_restarts.
+
+(* non-vacuity: the countdown generator with a local (the shape of generator the compiler prepends
+   PREP_LOCALS to), consumed twice, reset, consumed by for-in with a break, then to the end; a channel and a
+   Once next to it.  x0 = from, x1 = current. *)
+Definition countdown : C15_Gen.func :=
+  C15_Gen.mkFunc 1
+    (C15_Gen.SSeq (C15_Gen.SAssign 1 (C15_Gen.EVar 0))
+       (C15_Gen.SWhile (C15_Gen.CLt (C15_Gen.EConst 0) (C15_Gen.EVar 1))
+          (C15_Gen.SSeq (C15_Gen.SYield (C15_Gen.EVar 1))
+                        (C15_Gen.SAssign 1 (C15_Gen.ESub (C15_Gen.EVar 1) (C15_Gen.EConst 1))))))
+    (C15_Gen.EConst 0).
+Definition proto_heap : list obj :=
+  [OGen countdown [3] (C15_Gen.gen_init countdown [3]); OChan 2 [] false; OOnce false 0].
+Definition proto_ops : list op :=
+  [PNext 0; PNext 0; PReset 0; PForIn 0 (Some 2%nat); PPush 1 7; PNext 0; PNext 0; PNext 0; PPop 1; PClose 1;
+   PNext 1; PCall 2 5; PCall 2 9].
+Example C01_proto_nonvacuous :
+  wt_ops (map kind_of proto_heap) proto_ops = true /\
+  exists h, run_ops 100 proto_heap proto_ops 0 [] =
+    POk h 18 [[EVal 5]; [EVal 5]; [EStop]; [EOk]; [EVal 7]; [EStop]; [EVal 0]; [EVal 1]; [EOk];
+              [EVal 3; EVal 2]; [EOk]; [EVal 2]; [EVal 3]].
+Proof. vm_compute. split; eauto. Qed.
